@@ -23,6 +23,7 @@ type Node struct {
 	MTime  time.Time
 	Data   []byte
 	Target string
+	LinkOf string // file: created as a hard link to this node
 }
 
 func (n *Node) SHA256() string {
@@ -144,7 +145,13 @@ var TimeOf = map[string]time.Time{
 	"epochs/y1970.txt": time.Unix(0, 0).UTC(),
 	"epochs/y2040.txt": time.Date(2040, 1, 2, 3, 4, 5, 0, time.UTC),
 	"epochs/y2110.txt": time.Date(2110, 1, 2, 3, 4, 5, 0, time.UTC),
+	// the two names of one file have one time
+	"hardlinks/first.bin":  T0.Add(4321 * time.Hour),
+	"hardlinks/second.bin": T0.Add(4321 * time.Hour),
 }
+
+// OddNames are the file names below oddnames/.
+var OddNames = []string{"caf\xe9-latin1.txt", "cafe\u0301-nfd.txt", "caf\u00e9-nfc.txt", "trailing-blank ", " leading-blank", "-rf", "#hash", "semi;colon", "back`tick", "star*", "brace{a,b}", "q'uo\"te", "pct%41", "colon:name", "comma,name", "dollar$HOME", "amp&ersand", "pipe|name", "lt<gt>", "excl!", "tilde~", "eq=ual", "at@sign", "plus+"}
 
 // BoundarySizes are the sizes of the sizes/s<N>.bin fixture files.
 var BoundarySizes = []int{511, 512, 513, 4095, 4096, 4097, 32767, 32768, 32769, 65535, 65536, 65537, 1<<20 - 1, 1 << 20, 1<<20 + 1}
@@ -317,6 +324,18 @@ func Spec(big int) []Node {
 	ns = append(ns, Node{Rel: LongSrcDir, Kind: "dir", Mode: 0o755})
 	ns = append(ns, Node{Rel: LongSrcDir + "/payload.bin", Kind: "file", Mode: 0o644, Data: Noise(3000, 4242)})
 	ns = append(ns, Node{Rel: LongSrcDir + "/settings.conf", Kind: "file", Mode: 0o640, Data: text("long source settings", 60)})
+	// names that are not plain text: bytes that are not UTF-8, the two Unicode spellings of one letter, blanks at
+	// the ends, characters that mean something to a shell, a glob or a line-oriented file
+	ns = append(ns, Node{Rel: "oddnames", Kind: "dir", Mode: 0o755})
+	for i, n := range OddNames {
+		ns = append(ns, Node{Rel: "oddnames/" + n, Kind: "file", Mode: 0o644, Data: text(fmt.Sprintf("odd name %d", i), 20+i)})
+	}
+	// two names of one file (hard links), a symbolic link to a directory
+	ns = append(ns, Node{Rel: "hardlinks", Kind: "dir", Mode: 0o755})
+	ns = append(ns, Node{Rel: "hardlinks/first.bin", Kind: "file", Mode: 0o644, Data: Noise(5000, 31337)})
+	ns = append(ns, Node{Rel: "hardlinks/second.bin", Kind: "file", Mode: 0o644, Data: Noise(5000, 31337), LinkOf: "hardlinks/first.bin"})
+	ns = append(ns, Node{Rel: "hardlinks/other.bin", Kind: "file", Mode: 0o644, Data: Noise(300, 31338)})
+	ns = append(ns, Node{Rel: "dirlink", Kind: "symlink", Target: "tree"})
 	ns = append(ns, Node{Rel: "epochs", Kind: "dir", Mode: 0o755})
 	for _, n := range []string{"epochs/y1960.txt", "epochs/y1970.txt", "epochs/y2040.txt", "epochs/y2110.txt"} {
 		ns = append(ns, Node{Rel: n, Kind: "file", Mode: 0o644, Data: text(n, 30)})
@@ -332,12 +351,12 @@ func Spec(big int) []Node {
 	ns = append(ns, Node{Rel: "huge/zeros.bin", Kind: "file", Mode: 0o644, Data: make([]byte, 12<<20)})
 	for i := range ns {
 		ns[i].MTime = mt(i + 1).Add(FracOf[ns[i].Rel])
-		if t, ok := TimeOf[ns[i].Rel]; ok {
-			ns[i].MTime = t
-		}
 		if i >= firstMany {
 			// minutes apart: thousands of nodes stay within the years of the others
 			ns[i].MTime = mt(firstMany + 1).Add(time.Duration(i-firstMany) * 61 * time.Second)
+		}
+		if t, ok := TimeOf[ns[i].Rel]; ok {
+			ns[i].MTime = t
 		}
 	}
 	return ns
@@ -385,6 +404,13 @@ func Materialize(root string, nodes []Node) (*Tree, error) {
 		case "file":
 			if err := os.MkdirAll(filepath.Dir(p), 0o755); err != nil {
 				return nil, err
+			}
+			if n.LinkOf != "" {
+				// a second name of an existing file
+				if err := os.Link(filepath.Join(root, n.LinkOf), p); err != nil {
+					return nil, err
+				}
+				break
 			}
 			if err := os.WriteFile(p, n.Data, 0o600); err != nil {
 				return nil, err
